@@ -143,7 +143,7 @@ pub fn gen_sym(seed: u64) -> SymScenario {
     // one property that can never be discovered keeps both runs exhaustive
     let keep = rng.usize_below(props.len());
     props[keep] = (true, Pred::CountAtMost(0, procs as u8));
-    let mut sched = super::gen::gen_sched(&mut rng, 2_000_000);
+    let mut sched = super::gen::gen_sched(&mut rng, 300_000);
     sched.block_size = *rng.pick(&[1usize, 2, 5, 0]);
     let extra_inits = if rng.chance(1, 2) { (0..rng.range(1, 2)).map(|_| (0..procs).map(|_| rng.below(locals as u64) as u8).collect()).collect() } else { vec![] };
     let boundary = if rng.chance(1, 2) { Some(Pred::CountAtMost(rng.below(locals as u64) as u8, rng.range(0, procs as u64) as u8)) } else { None };
@@ -259,7 +259,11 @@ pub fn execute(sc: &SymScenario) -> (Vec<Violation>, Counters, u64, u64, u64) {
     let plain = run_dfs(sc, false, 0);
     let sym = run_dfs(sc, true, 0x51);
     // the simulation strategy with symmetry: reported paths must be executions of the original model
-    if let Ok((so, _, _, _)) = run_checker(sc, true, 0x77, true) {
+    // (it never stops by itself when no initial state is inside the boundary)
+    let has_init = model.init_states().iter().any(|s| model.within_boundary(s));
+    if !has_init {
+        c.inc("symmetry_no_in_boundary_init");
+    } else if let Ok((so, _, _, _)) = run_checker(sc, true, 0x77, true) {
         c.inc("simulation_with_symmetry_runs");
         if let Some(b) = &so.bad_path {
             v.push(Violation::new("C10", "path:Simulation", format!("simulation with symmetry: {}", b)));
